@@ -92,10 +92,17 @@ type reqCase struct {
 	method string
 	hdr    hdr
 	body   bodyV
+	// other is the value of the header that is IRRELEVANT for the entry's method (Accept on a POST,
+	// Content-Type on a GET); it must not make a request an ActivityPub request
+	other string
 }
 
 func (c reqCase) String() string {
-	return fmt.Sprintf("%s/%s auth=%d block=%d %s hdr=%q body=%s", c.entry, c.kind, c.auth, c.block, c.method, c.hdr.v, c.body.name)
+	o := ""
+	if c.other != "" {
+		o = fmt.Sprintf(" other-header=%q", c.other)
+	}
+	return fmt.Sprintf("%s/%s auth=%d block=%d %s hdr=%q%s body=%s", c.entry, c.kind, c.auth, c.block, c.method, c.hdr.v, o, c.body.name)
 }
 
 func (c reqCase) scenario(authWrites bool) *Scenario {
@@ -111,6 +118,13 @@ func (c reqCase) scenario(authWrites bool) *Scenario {
 		sc.URL, sc.Accept = outbox(Alice), c.hdr.v
 	case "Handler":
 		sc.URL, sc.Accept = Note1, c.hdr.v
+	}
+	if c.other != "" {
+		if c.entry == "PostInbox" || c.entry == "PostOutbox" {
+			sc.Accept = c.other
+		} else {
+			sc.CType = c.other
+		}
 	}
 	if sc.CType == "" && (c.entry == "PostInbox" || c.entry == "PostOutbox") {
 		sc.CType = "-" // explicit "no header": see Request override below
@@ -156,8 +170,18 @@ func forEachReqCase(fn func(c reqCase)) {
 					for _, m := range methods {
 						for _, h := range headerVariants {
 							for _, b := range bodies {
-								fn(reqCase{e, k, au, bl, m, h, b})
+								fn(reqCase{entry: e, kind: k, auth: au, block: bl, method: m, hdr: h, body: b})
 							}
+						}
+					}
+				}
+			}
+			// the irrelevant header carrying a media type of its own
+			for _, m := range []string{"GET", "POST"} {
+				for _, h := range headerVariants {
+					for _, b := range []bodyV{bodies[0], bodies[len(bodies)-4]} {
+						for _, other := range []string{"application/activity+json", "text/html"} {
+							fn(reqCase{entry: e, kind: k, auth: ap.OK, block: ap.OK, method: m, hdr: h, body: b, other: other})
 						}
 					}
 				}
@@ -178,7 +202,7 @@ func C07(tier string) int {
 	res := NewResult("C07", tier, "exploration")
 	var cases []reqCase
 	forEachReqCase(func(c reqCase) { cases = append(cases, c) })
-	res.Rule = fmt.Sprintf("the full product {PostInbox,PostOutbox,GetInbox,GetOutbox,handler} x {social,federating,both} x authentication {ok,denied,error,error-with-true} x block {no,yes,error} x %d methods x %d header values x %d bodies = %d requests, each on a fresh world; monitor over the seam call log; non-trivial = request classes (entry,kind,auth,block,method-ok,header-class,body-class) that reach a decision point", len(methods), len(headerVariants), len(bodyVariants()), len(cases))
+	res.Rule = fmt.Sprintf("the full product {PostInbox,PostOutbox,GetInbox,GetOutbox,handler} x {social,federating,both} x authentication {ok,denied,error,error-with-true} x block {no,yes,error} x %d methods x %d header values x %d bodies, plus (authenticated, unblocked, GET / POST) every header value again with the header that is irrelevant for the method (Accept on a POST, Content-Type on a GET) carrying the ActivityStreams type or text/html = %d requests, each on a fresh world; monitor over the seam call log; non-trivial = request classes (entry,kind,auth,block,method-ok,header-class,body-class) that reach a decision point", len(methods), len(headerVariants), len(bodyVariants()), len(cases))
 	res.Assumptions = []string{"header values marked 'either' (case variants, lists) are exempt from the handled/not-handled assertion but not from the monitors",
 		"a panic is C11's business and is not judged here"}
 	var mu sync.Mutex
